@@ -27,7 +27,8 @@ CLAIMS = {
                   "replayed into the real code and must produce the predicted events; traces of the real submit-jobs/run-jobs/"
                   "try-submit-jobs under random interleavings are validated by TLC against the C01 clauses of JadeMonitor.tla. "
                   "Also: recorded runs followed by JadeImpl (code -> model), single-delay and login-round x delay sweeps (also "
-                  "with file operations as scheduling points), PlacedOrCanceled at every fault-free completion. "
+                  "with file operations as scheduling points), PlacedOrCanceled at every fault-free completion; rounds aborted by a "
+                  "failed write of a batch file (after the scheduler accepted earlier batches), then further rounds. "
                   "Bounded: small scopes exhaustively, larger ones sampled.", "5-C01"),
     "C02": _claim("StartAfterBlockers (every launch finds a result row on disk for each configured blocker) is checked by TLC "
                   "on all JadeImpl interleavings (node-level gate in NodePoll, submitter-level hand-over in SubmitBatch) and on "
@@ -50,26 +51,31 @@ CLAIMS = {
                   "the real code (CompletesAfterRecovery) and on the model; TLC liveness (FairSpec => eventually complete, and its "
                   "violation without the user's recovery); JadeImpl with the user's try-submit-jobs at any moment (EagerUser); "
                   "CompleteSummaryHasAll, SummaryOnlyBeforeFlag, NodeRoundAfterBatch; login-node rounds started at every other "
-                  "step of base schedules and held at each of their operations.", "5-C05"),
+                  "step of base schedules and held at each of their operations; CompletionWorkOnce (one summary per epoch) with a "
+                  "try-submit-jobs started at every step of submissions that end with report generation.", "5-C05"),
     "C06": _claim("NodesBound against the simulator's ground truth after every sbatch/hpc event and ProcsBound after every "
                   "launch, on JadeImpl and real traces (incl. failing scheduler queries); node-level ProcsBound on NodeQueue.tla "
                   "(all inputs <=3 jobs) and on the real JobQueue along every exit schedule, plus random 5-9-job "
-                  "cancellation-heavy batches.", "5-C06"),
+                  "cancellation-heavy batches; rounds aborted by a failed write after an accepted sbatch; resubmit-jobs at the "
+                  "moment of completion; limits judged against the parameters in force (regroup).", "5-C06"),
     "C07": _claim("Batching.tla: TLC enumerates every batching input with <=3 jobs (admissible batches, node budget, "
                   "termination, closed form = step-wise run); the same input space is executed on the real submit-jobs and the "
                   "observed batches are validated by TLC against the closed form (BatchTrace.tla); C07 clauses of JadeMonitor on "
-                  "every cfgbatch/sbatch event of real traces incl. 1-3 groups, group options and dry-run pairs (DryRunSame).",
+                  "every cfgbatch/sbatch event of real traces incl. 1-3 groups, group options and dry-run pairs (DryRunSame); "
+                  "resubmissions with replaced group parameters (resubmit-jobs -s): the regroup event switches the monitor to the "
+                  "new parameters.",
                   "5-C07"),
     "C08": _claim("Results.tla: all interleavings of appenders, collectors (with canceled rows) and a reader at lock-operation "
                   "granularity (bag conservation, exactly-once reporting); its behaviours and random schedules are executed on "
                   "the real ResultsAggregator in virtual processes parked at every lock operation, and random schedules with every "
                   "file operation (result and lock files) as a scheduling point; rows/collected events of whole submissions incl. "
-                  "login-node rounds held at each file operation.", "5-C08"),
+                  "login-node rounds held at each file operation, and of resubmitted submissions (consolidated file rewritten by "
+                  "resubmit-jobs, then appended to).", "5-C08"),
     "C09": _claim("All status clauses evaluated after every cluster-lock release (and between consecutive statuses) on "
                   "JadeImpl and on real traces.", "5-C09"),
 }
 
-CLAIMS["C10"] = _claim("ClusterStore.tla: all interleavings of load/promote/demote/update/job-status-only/cancel operations "
+CLAIMS["C10"] = _claim("ClusterStore.tla: all interleavings of load/promote/demote/update/job-status-only/cancel/complete operations "
                        "by 2-3 handles on 2 hosts incl. handles loaded before others changed the state (one role holder, "
                        "promotion refused while held, stale writes rejected with all four files unchanged); behaviours and random "
                        "schedules executed on the real Cluster class with byte comparison of the files around every operation; "
@@ -83,7 +89,8 @@ CLAIMS["C11"] = ("fault_enumeration",
                  "library policies, followed by the other nodes' rounds and user try-submit-jobs; failed scheduler queries; "
                  "every recorded trace validated by TLC against the C11 clauses of JadeMonitor (OnePlacement, OneLaunch, "
                  "StartAfterBlockers, RowsNeverLost, FreshBatchIndex, SqueueFailureHarmless, AfterSqueueFaultNormal); JadeImpl with "
-                 "Kill / failing sbatch / failing squeue actions explored by TLC and replayed into the code.", "5-C11", _NOTE,
+                 "Kill / failing sbatch / failing squeue actions explored by TLC and replayed into the code. Quick tier: the "
+                 "fine-grained sweep is sampled except the writes of the four status files, which are always swept completely.", "5-C11", _NOTE,
                  "fault enumeration on the real code + TLC trace validation against JadeMonitor + JadeImpl fault actions")
 CLAIMS["C12"] = ("fault_enumeration",
                  "Every subset (<=3) of batches failing at sbatch, a node killed at every operation of every runner (fault mode: "
@@ -101,17 +108,24 @@ CLAIMS["C13"] = _claim("Resubmit.tla: what resubmit-jobs computes and writes bef
                        "x exit codes x flags sampled/swept) and of resubmit-jobs on incomplete submissions (nobody submitter / a "
                        "compute node holds the role, other or same host) are validated by TLC against the epoch-aware clauses of "
                        "JadeMonitor (RerunExactly, RerunAllFresh, UntouchedPreserved, StartAfterBlockers per epoch, "
-                       "RefuseLeavesUnchanged, NoDeadEnd). K2 is a listed known finding.", "5-C13")
+                       "RefuseLeavesUnchanged, NoDeadEnd). JadeImpl with resubmit-jobs as a process (both epochs, every interleaving) "
+                       "incl. TLC liveness ResubmitEnds (flag cleared ~> complete again). K2 is a listed known finding and an expected "
+                       "TLC counterexample of JadeImpl.", "5-C13")
 CLAIMS["C14"] = _claim("cancel-jobs issued at every scheduling step of base schedules and at random moments of random submissions, "
                        "followed by try-submit-jobs/show-status sequences; traces validated by TLC against NoSbatchAfterCancel, "
                        "ActiveBatchesCancelled (simulated scancel with SLURM's return codes), MissingExact, FinishedKeepResults, "
                        "RowsNeverLost; JadeImpl with cancel-jobs as a process of its own started at any moment, explored by TLC and "
-                       "replayed; cancel at quiet moments (no batch active, jobs unsubmitted).", "5-C14")
+                       "replayed; cancel at quiet moments (no batch active, jobs unsubmitted); TLC liveness under FairSpecCancel: "
+                       "CancelEnds (a cancellation ~> complete, nothing queued/running/active), CancelMarks, with the vacuity run "
+                       "without fairness on the cancel process; a cancel-jobs that is refused for all its attempts gives up (CGiveUp) and "
+                       "never takes the role from a holder.", "5-C14")
 CLAIMS["C16"] = _claim("All 16 set/unset combinations of the four lifecycle commands x local/HPC x random DAGs and schedules; the "
                        "commands are served by the controller and recorded with host, batch, environment, rows on disk and live "
                        "job processes; traces validated by TLC against the hook clauses of JadeMonitor; JadeImpl with the four "
                        "commands as actions (Teardown between Summary and MarkComplete, NodeSetup/NodeTeardown around the node's "
-                       "queue) explored by TLC and replayed; failing teardown / node teardown commands; multi-group runs.", "5-C16")
+                       "queue) explored by TLC and replayed; failing teardown / node teardown commands; multi-group runs; canceled "
+                       "completions (cancel-jobs at any moment in the model with the commands as actions, at every step of base "
+                       "schedules on the code).", "5-C16")
 
 CLAIMS["C15"] = _claim("Traces of real `jade pipeline submit` runs (1-4 stages, local and HPC, nested submit-next-stage commands as "
                        "virtual processes, per-stage recovery) are validated by TLC against PipelineMonitor.tla: stage k+1 is "
@@ -128,7 +142,7 @@ CLAIMS["C17"] = ("exploration",
                  "Abstract configurations over the public job/group models and every single injected invalidity are built with "
                  "the real models, dumped, loaded and submitted (counting sbatch stub); TLC decides with Valid(cfg) of "
                  "ConfigCheck.tla whether each observed verdict (accepted / rejected with which error, sbatch calls before the "
-                 "rejection, loaded projection = original projection) is right.", "5-C17", _FNOTE,
+                 "rejection, loaded projection = original projection) is right; walltimes from 10 minutes to 48 hours.", "5-C17", _FNOTE,
                  "TLA+ oracle (ConfigCheck) + TLC validation of observations of the real code")
 CLAIMS["C18"] = ("model_checking",
                  "Slurm.tla: the retry loop as a state machine (TLC: all outcome sequences, retries 0..6); operators for the "
@@ -146,7 +160,8 @@ CLAIMS["C19"] = ("model_checking",
 CLAIMS["C20"] = ("model_checking",
                  "Reports.tla: the running min/max/sum machine (TLC: all sample sequences <=5 over 0..3) and the consolidation "
                  "operators; all sample sequences <=4 are fed to the real ResourceMonitorAggregator (node and per-process), random "
-                 "event multisets over several files are consolidated twice with the real EventsSummary, and TLC validates the "
+                 "event multisets over several files are consolidated twice with the real EventsSummary (lists per name; for resource-"
+                 "statistics events the per-name tables, one row per monitored process, read back with get_dataframe), and TLC validates the "
                  "observations; results.json tallies are validated on whole submissions (TallyPartition) and the consolidated "
                  "event summary against the event logs after a resubmission (reports on, periodic monitoring).", "5-C20", _FNOTE,
                  "TLA+ model (Reports) checked by TLC + TLC validation of observations of the real code")
